@@ -49,6 +49,26 @@ Definition pa_name (t : pa_type) : string :=
   | PppChap => "PppChap" | PppPap => "PppPap" | NoAuthentication => "NoAuthentication"
   | MicrosoftChapVersion1 => "MicrosoftChapVersion1"
   end.
+Definition sc_name (t : stop_ccn_code) : string :=
+  match t with
+  | ScReserved => "Reserved"
+  | GeneralRequestToClearControlConnection => "GeneralRequestToClearControlConnection"
+  | GeneralError => "GeneralError" | ControlChannelAlreadyExists => "ControlChannelAlreadyExists"
+  | RequesterNotAuthorizedToEstablishControlChannel => "RequesterNotAuthorizedToEstablishControlChannel"
+  | RequesterProtocolVersionUnsupported => "RequesterProtocolVersionUnsupported"
+  | RequesterShutdown => "RequesterShutdown" | FsmError => "FsmError"
+  end.
+Definition cd_name (t : cdn_code) : string :=
+  match t with
+  | CdReserved => "Reserved" | CallDisconnectedLossOfCarrier => "CallDisconnectedLossOfCarrier"
+  | CallDisconnectedWithErrorCode => "CallDisconnectedWithErrorCode"
+  | CallDisconnectedAdministrative => "CallDisconnectedAdministrative"
+  | CallFailedTemporarilyUnavailable => "CallFailedTemporarilyUnavailable"
+  | CallFailedPermanentlyUnavailable => "CallFailedPermanentlyUnavailable"
+  | InvalidDestination => "InvalidDestination" | CallFailedNoCarrier => "CallFailedNoCarrier"
+  | CallFailedBusySignal => "CallFailedBusySignal" | CallFailedNoDialTone => "CallFailedNoDialTone"
+  | CallEstablishTimeout => "CallEstablishTimeout" | CallNoFramingDetected => "CallNoFramingDetected"
+  end.
 Definition k16_name (k : k16) : string :=
   match k with
   | FirmwareRevision => "FirmwareRevision" | AssignedTunnelId => "AssignedTunnelId"
